@@ -24,6 +24,8 @@ EXTRA_DEPS = {
                            "type Entity struct{}\n"),
     "dep/subvendor/model": ("model", "type T struct{}\ntype Row struct{}\n"),
     "dep/yaml": ("yaml", "type T struct{}\ntype Node struct{}\n"),
+    "dep/k1/type": ("kw", "type T struct{}\n"),
+    "dep/k2/range": ("kw", "type T struct{}\n"),
     "dep/gw/gateway": ("paygw", "type Charge struct{}\ntype Receipt struct{}\ntype T struct{}\n"
                                 "type Processor interface {\n\tPay(c Charge) (*Receipt, error)\n}\n"),
 }
@@ -888,6 +890,28 @@ package mocks
 FILES["adv/withmocks/withmocks_test/doc.go"] = """package withmocks_test
 """
 flagsets("withmocks", "adv/withmocks", ["Store"], modes=("mocks", "withmocks_test", "other"))
+
+# D14: aliases made of path elements that are keywords; the formatters must fail on such output
+FILES["adv/kwalias/a.go"] = """package kwalias
+
+import "example.com/m/dep/k1/type"
+
+type One interface{ A(t kw.T) }
+"""
+FILES["adv/kwalias/b.go"] = """package kwalias
+
+import "example.com/m/dep/k2/range"
+
+type Two interface{ B(t kw.T) }
+
+type Both interface {
+	One
+	Two
+}
+"""
+case("kwalias", "adv/kwalias", ["Both"])
+CASES[-1]["fmts_always"] = True
+case("kwalias-m", "adv/kwalias", ["One", "Two"], pkg="mocks", stub=True)
 
 # D31: goimports, sibling files and a package name that cannot be guessed from the path
 FILES["adv/goimp/a.go"] = """package goimp
